@@ -336,6 +336,43 @@ fn paths(ctx: &Ctx, rep: &mut Report) {
             }
         },
     );
+    // paths with percent signs, digits, spaces and question marks: the setter stores the text as given
+    {
+        let syms2 = ["%", "2", "F", "f", "a", "/", " ", "?"];
+        let maxlen2 = if ctx.thorough() { 6 } else { 5 };
+        let n2 = mccore::strings_upto_count(8, maxlen2);
+        ctx.family(
+            rep,
+            "paths-percent-and-friends",
+            &format!("every path string of length 0..={} over {{% 2 F f a / space ?}}: all path views agree with the input minus one leading '/' (no decoding of any kind)", maxlen2),
+            n2,
+            true,
+            |i, rep| {
+                let s: String = mccore::string_at(i, 8, maxlen2).iter().map(|x| syms2[*x as usize]).collect();
+                let r = guard(|| {
+                    let mut rq = Req::new();
+                    rq.set_path(&s);
+                    let raw: Vec<Vec<u8>> = rq.message.get_option(CoapOption::UriPath).map(|l| l.iter().cloned().collect()).unwrap_or_default();
+                    (rq.get_path(), rq.get_path_as_vec().ok(), raw)
+                });
+                let stripped = s.strip_prefix('/').unwrap_or(&s).to_string();
+                let segs: Vec<String> = if s.is_empty() { vec![] } else { stripped.split('/').map(|x| x.to_string()).collect() };
+                match r {
+                    Ok((gp, gv, raw)) if gp == stripped && gv.as_ref() == Some(&segs) && raw == segs.iter().map(|x| x.as_bytes().to_vec()).collect::<Vec<_>>() => {
+                        rep.count("path-views-agree");
+                        rep.bucket(&("pp", segs.len().min(4), s.contains('%')));
+                    }
+                    other => rep.violation(viol(
+                        "paths-percent-and-friends",
+                        i,
+                        "C19/path-views-disagree",
+                        format!("set_path({:?}) -> {:?}; expected path {:?} segments {:?}", s, other, stripped, segs),
+                        Json::obj().set("path", s.as_str()),
+                    )),
+                }
+            },
+        );
+    }
     // raw non-UTF-8 segments
     let raws: Vec<Vec<Vec<u8>>> = vec![vec![vec![0xFF]], vec![b"a".to_vec(), vec![0xC3]], vec![vec![0xE2, 0x82], b"b".to_vec()], vec![b"ok".to_vec()]];
     let n = raws.len() as u64;
